@@ -1,8 +1,8 @@
 """C18 - reusing factor and constraint objects across blocks does not change meaning.
 
 Generated construction histories: a pool of factor objects and of constraint objects, and an ordered list of 2-4 blocks
-built from pool members - CrossBlocks with different crossings (hence different lengths and geometry), then optionally
-Repeat / Merge / Nest over earlier blocks.  All blocks are constructed first (so later constructions can disturb earlier
+built from pool members - CrossBlocks with different crossings (hence different lengths and geometry), then 0-2
+Repeat / Merge / Nest blocks over earlier blocks (the same block object may be used by several combinators).  All blocks are constructed first (so later constructions can disturb earlier
 blocks), then EVERY block is compared with a twin built from the same description with fresh, unshared objects:
 equal trial count, equal exhausted multiset of sequences (compiled formula), equal mismatch verdicts on a fixed candidate
 set (the twin's sequences and trial-swapped variants).  Purely differential, no reference model.
@@ -16,7 +16,7 @@ from .. import build as B
 from .. import design as D
 from .. import env, lib as L, spec as S, strategies as G
 
-POOL_KINDS = ("atmost", "atleast", "exactly_k", "pin", "exactly_row", "exclude")
+POOL_KINDS = ("atmost", "atleast", "exactly_k", "pin", "exactly_row", "exclude", "min")
 
 
 @st.composite
@@ -38,13 +38,13 @@ def cases(draw, c):
         crossing = list(draw(st.permutations(cand))[:k])
         refs = draw(st.lists(st.integers(0, len(pool) - 1), min_size=1, max_size=len(pool), unique=True))
         blocks.append({"type": "cross", "design": names, "crossing": crossing, "constraints": [{"ref": r} for r in refs], "rcc": False})
-    if draw(st.booleans()):
-        kind = draw(st.sampled_from(["repeat", "merge", "nest"]))
+    for _ in range(draw(st.sampled_from([0, 1, 1, 2, 2]))):        # combinators over EARLIER blocks; a block may be reused by several
+        kind = draw(st.sampled_from(["repeat", "merge", "nest", "nest"]))
         i = draw(st.integers(0, n_leaf - 1))
         j = draw(st.integers(0, n_leaf - 1))
         refs = [{"ref": r} for r in draw(st.lists(st.integers(0, len(pool) - 1), min_size=0, max_size=1))]
         if kind == "repeat":
-            blocks.append({"type": "repeat", "of": i, "constraints": [{"kind": "min", "k": draw(st.sampled_from([4, 6, 8]))}] + refs})
+            blocks.append({"type": "repeat", "of": i, "constraints": ([{"kind": "min", "k": draw(st.sampled_from([4, 6, 8]))}] if draw(st.booleans()) else []) + refs})
         elif kind == "merge" and i != j:
             blocks.append({"type": "merge", "of": [i, j], "constraints": refs, "mode": draw(st.sampled_from(["repeat", "weight"])), "alignment": None})
         elif i != j:
@@ -192,12 +192,13 @@ def judge(ctx):
     ctx.sample = {"pool": spec["pool"], "blocks": spec["blocks"]}
 
 
-CFG = G.cfg(max_factors=3, max_derived=1, max_levels=3, p_weight=0.1, explicit_start=False)
+CFG = G.cfg(max_factors=3, max_derived=1, max_levels=3, p_weight=0.1, explicit_start=False,
+            kind_weight={"min": 4, "exclude": 1, "pin": 2, "atmost": 2, "exactly_k": 2})
 P = D.DesignProperty(
     "C18", judge,
     rule=("case = (factors, constraint pool, ordered list of 2-4 block constructions referring to pool constraints by index); non-trivial = "
           "at least two blocks could be exhausted and some pool constraint object is used by at least two blocks; distinct = distinct case JSON"),
-    cfg_quick=CFG, n_quick=50, n_thorough=2000, case_limit=(30, 180), strategy=cases, uses_reference=False,
+    cfg_quick=CFG, n_quick=160, n_thorough=3000, case_limit=(30, 180), strategy=cases, uses_reference=False,
     limits={"max_T": {"quick": 8, "thorough": 10}, "max_models": {"quick": 1500, "thorough": 10000}},
     assumptions=["the twin built by vp/build.py from the same description with fresh objects is the meaning the property refers to"])
 P.export(globals())
